@@ -5,13 +5,6 @@ recombinations and their inverses on whole channels.
 import FlacVerif.Lemmas.StrictFrameDec
 namespace FlacVerif
 
-/-- `LpcFits` for every channel `encode_frame` may hand to `encode_subframe`: the given channels and,
-for two channels, their mid and side signals. -/
-def FrameFits (log : List OEvent) (chans : List (List Int)) : Prop :=
-  (∀ c ∈ chans, LpcFits log c) ∧
-  ∀ l r, chans = [l, r] →
-    LpcFits log ((List.zipWith midSide l r).map (·.1)) ∧ LpcFits log ((List.zipWith midSide l r).map (·.2))
-
 namespace Strict
 open Rfc
 
@@ -19,9 +12,6 @@ open Rfc
 abbrev midOf (l r : List Int) : List Int := (List.zipWith midSide l r).map (·.1)
 /-- Side signal of two channels. -/
 abbrev sideOf (l r : List Int) : List Int := (List.zipWith midSide l r).map (·.2)
-
-theorem LpcFits_mono (log log' : List OEvent) (xs : List Int) (hsub : ∀ e ∈ log', e ∈ log) (h : LpcFits log xs) :
-    LpcFits log' xs := fun c sh p hm => h c sh p (hsub _ hm)
 
 /-- The per-channel loop of `encode_frame_impl`: every sub-frame is read back with the width of its
 channel, and is well-formed. -/
@@ -31,7 +21,7 @@ theorem encodeChannels_strict (cfg : SubCfg) (asg : ChannelAssignment) (bps n : 
       (∀ c ∈ chans, c.length = n) →
       (∀ i (h : i < chans.length), 1 ≤ bps + asg.bpsOffset (ch + i) ∧ bps + asg.bpsOffset (ch + i) ≤ 25 ∧
         ∀ x ∈ chans[i], SubFrame.inRange (bps + asg.bpsOffset (ch + i)) x = true) →
-      (∀ e ∈ log, e.Ok) → (∀ c ∈ chans, LpcFits log c) →
+      (∀ e ∈ log, e.Ok) →
       encodeChannels cfg asg bps chans ch log = some (subs, log') →
       subs.length = chans.length ∧ (∀ e ∈ log', e ∈ log) ∧
       ∀ i (h1 : i < subs.length) (h2 : i < chans.length), subs[i].WF ∧ ∀ k, ∃ rep,
@@ -40,12 +30,12 @@ theorem encodeChannels_strict (cfg : SubCfg) (asg : ChannelAssignment) (bps n : 
   intro chans
   induction chans with
   | nil =>
-    intro ch log log' subs _ _ _ _ h
+    intro ch log log' subs _ _ _ h
     simp only [encodeChannels, Option.some.injEq, Prod.mk.injEq] at h
     obtain ⟨rfl, rfl⟩ := h
     exact ⟨rfl, fun e he => he, fun i h1 => absurd h1 (by simp)⟩
   | cons c cs ih =>
-    intro ch log log' subs hlen hrng hlog hfit h
+    intro ch log log' subs hlen hrng hlog h
     simp only [encodeChannels, Option.bind_eq_bind, Option.bind_eq_some_iff, Option.some.injEq, Prod.mk.injEq] at h
     obtain ⟨⟨s, l1⟩, hs, ⟨ss, l2⟩, hss, hsub, hl2⟩ := h
     subst hsub; subst hl2
@@ -53,16 +43,14 @@ theorem encodeChannels_strict (cfg : SubCfg) (asg : ChannelAssignment) (bps n : 
     obtain ⟨hb1, hb25, hx⟩ := hrng 0 (by simp)
     simp only [Nat.add_zero, List.getElem_cons_zero] at hb1 hb25 hx
     have hsub1 := encodeSubframe_sub cfg c _ log l1 s hs
-    have hthis := fun k => subframe_strict cfg c _ log l1 s (by omega) (by omega) ⟨hb1, hb25⟩ hx hmax hlog
-      (hfit c (by simp)) hs k
+    have hthis := fun k => subframe_strict cfg c _ log l1 s (by omega) (by omega) ⟨hb1, hb25⟩ hx hmax hlog hs k
     obtain ⟨hl, hsub2, hrest⟩ := ih (ch + 1) l1 l2 ss (fun x hx => hlen x (by simp [hx]))
       (fun i hi => by
         have := hrng (i + 1) (by simp; omega)
         simp only [List.getElem_cons_succ] at this
         rw [show ch + (i + 1) = ch + 1 + i by omega] at this
         exact this)
-      (fun e he => hlog e (hsub1 e he))
-      (fun x hx => LpcFits_mono log l1 x hsub1 (hfit x (by simp [hx]))) hss
+      (fun e he => hlog e (hsub1 e he)) hss
     refine ⟨by simp [hl], fun e he => hsub1 e (hsub2 e he), ?_⟩
     intro i h1 h2
     cases i with
